@@ -143,9 +143,10 @@ def execute_nb(G, c):
                     cl.send(op[:-1], it)
                 else:
                     cl.send(op, call[1] if len(call) > 1 else None)
-            except G.SnmpEncodeError:
+            except (G.SnmpError, ValueError, RuntimeError, OverflowError) as e:
+                # a refused request emits nothing; whether it should have been refused is the question of C08 / C17
                 if ln.recv_all():
-                    raise core.Failure("encode-error-but-sent", "%r raised SnmpEncodeError yet a datagram was sent" % (call,))
+                    raise core.Failure("encode-error-but-sent", "%r raised %r yet a datagram was sent" % (call, e))
                 continue
             got = ln.recv_all()
             if len(got) != 1:
@@ -201,7 +202,12 @@ def run_walk(G, cl, ln, model, cfg, call):
     nreq = 0
     k = 1 if method == "getnext" else chunk
     while True:
-        cl.send(method, it)
+        try:
+            cl.send(method, it)
+        except (G.SnmpError, ValueError, RuntimeError, OverflowError) as e:
+            if ln.recv_all():
+                raise core.Failure("encode-error-but-sent", "walk step raised %r yet a datagram was sent" % (e,))
+            return nreq
         got = ln.recv_all()
         if len(got) != 1:
             raise core.Failure("datagram-count", "walk step emitted %d datagrams" % len(got))
@@ -220,6 +226,8 @@ def run_walk(G, cl, ln, model, cfg, call):
             cl.recv(method, it)
         except StopAsyncIteration:
             return nreq
+        except (G.SnmpError, BlockingIOError, ValueError, RuntimeError):
+            return nreq  # the walk ends here; what a walk delivers is the question of C05 / C06, the requests so far were checked
         if not part:
             raise core.Failure("walk-did-not-stop", "walk continued after endOfMibView")
         current = part[-1]
